@@ -232,3 +232,62 @@ class RefView(object):
 
     def app_data(self, side):
         return b"".join(pt for ct, pt, r in self.plain[side] if ct == 23)
+
+
+# ---------------------------------------------------------------------------
+# encoders (independent of tlslite.messages) used by MITM rewrites
+# ---------------------------------------------------------------------------
+def build_exts(exts):
+    """exts: list of (type, bytes) -> extensions block incl. 2-byte length,
+    or b'' when exts is None."""
+    if exts is None:
+        return b""
+    body = b"".join(struct.pack(">HH", t, len(b)) + bytes(b)
+                    for t, b in exts)
+    return struct.pack(">H", len(body)) + body
+
+
+def build_client_hello(version, random, session_id, suites, exts,
+                       compression=b"\x00"):
+    body = bytes(version) + bytes(random) + bytes([len(session_id)]) + \
+        bytes(session_id) + struct.pack(">H", 2 * len(suites)) + \
+        b"".join(struct.pack(">H", s) for s in suites) + \
+        bytes([len(compression)]) + bytes(compression) + build_exts(exts)
+    return b"\x01" + len(body).to_bytes(3, "big") + body
+
+
+def build_server_hello(version, random, session_id, suite, exts,
+                       compression=0):
+    body = bytes(version) + bytes(random) + bytes([len(session_id)]) + \
+        bytes(session_id) + struct.pack(">H", suite) + bytes([compression]) \
+        + build_exts(exts)
+    return b"\x02" + len(body).to_bytes(3, "big") + body
+
+
+def ext_list(parsed):
+    """(type, bytes) list in wire order from parse_client_hello output."""
+    if "ext_order" in parsed:
+        return [(t, parsed["exts"][t]) for t in parsed["ext_order"]]
+    return list(parsed["exts"].items())
+
+
+def record(ctype, version, payload):
+    return bytes([ctype, version[0], version[1]]) + \
+        struct.pack(">H", len(payload)) + bytes(payload)
+
+
+def parse_server_hello_exts_ordered(body):
+    sl = body[34]
+    p = 35 + sl + 3
+    out = []
+    if p + 2 <= len(body):
+        el = (body[p] << 8) | body[p + 1]
+        p += 2
+        end = p + el
+        while p + 4 <= end:
+            t = (body[p] << 8) | body[p + 1]
+            ln = (body[p + 2] << 8) | body[p + 3]
+            out.append((t, bytes(body[p + 4:p + 4 + ln])))
+            p += 4 + ln
+        return out
+    return None
